@@ -103,6 +103,9 @@ func driverRunX(c *core.Ctx, id string, work string, idx int, managed bool, r *r
 		return
 	}
 	w := &drv.World{C: c, Sig: id, DB: db, Opt: opt, Managed: managed, M: model.New(), R: r, Keys: gen.KeySet(r, 10+r.Intn(30), 8), NextTs: 5}
+	if idx%2 == 1 {
+		w.Locality = 2 + idx%4 // L0 tables with different, partly overlapping key ranges
+	}
 	defer func() {
 		w.CloseSnapshots()
 		_ = w.DB.Close()
@@ -171,7 +174,7 @@ func driverRunX(c *core.Ctx, id string, work string, idx int, managed bool, r *r
 	if extra != nil {
 		extra(w, "end")
 	}
-	c.Distinct(fmt.Sprintf("%s|managed=%v", name, managed))
+	c.Distinct(fmt.Sprintf("%s|managed=%v|locality=%v", name, managed, w.Locality > 0))
 	if idx < 2 {
 		c.Sample(map[string]any{"options": name, "managed": managed, "last_steps": w.Steps[max(0, len(w.Steps)-25):]})
 	}
